@@ -1,13 +1,684 @@
-"""placeholder"""
-import json, os
+"""Replay harness: searches for a concrete failing input of the public API after an obligation failed,
+and re-runs recorded inputs (`./check replay <file>`). It never decides a property: a run whose
+obligations all discharge does not execute it.
+
+The driver (replay/driver) is built against VERIF_REPO as a path dependency in build/replay/.
+Expected values are computed here with Python integers.
+"""
+import json
+import math
+import os
+import random
+import shutil
+import struct
+import subprocess
+import time
+
 ROOT = os.path.dirname(os.path.dirname(os.path.abspath(__file__)))
-def find_and_write(pid, viol, repo, tier, seed):
+BUILD = os.path.join(ROOT, "build", "replay")
+B64 = 1 << 64
+
+
+def build_driver(repo):
+    crate = os.path.join(BUILD, "crate")
+    os.makedirs(os.path.join(crate, "src"), exist_ok=True)
+    shutil.copy(os.path.join(ROOT, "replay", "driver", "src", "main.rs"), os.path.join(crate, "src", "main.rs"))
+    with open(os.path.join(crate, "Cargo.toml"), "w") as f:
+        f.write('[package]\nname = "replay-driver"\nversion = "0.0.0"\nedition = "2021"\n[dependencies]\n'
+                'num-bigint = { path = "%s" }\nnum-integer = "0.1.46"\nnum-traits = "0.2.18"\n'
+                '[profile.dev]\nopt-level = 1\ndebug-assertions = true\noverflow-checks = true\n' % repo)
+    lock = os.path.join(repo, "Cargo.lock")
+    if os.path.exists(lock) and not os.path.exists(os.path.join(crate, "Cargo.lock")):
+        shutil.copy(lock, os.path.join(crate, "Cargo.lock"))
+    env = dict(os.environ, CARGO_NET_OFFLINE="true", CARGO_TARGET_DIR=os.path.join(BUILD, "target"))
+    p = subprocess.run(["cargo", "build", "--offline", "-q"], cwd=crate, env=env, capture_output=True, text=True, timeout=900)
+    if p.returncode != 0:
+        return None, p.stderr[-3000:]
+    return os.path.join(BUILD, "target", "debug", "replay-driver"), ""
+
+
+def hx(n):
+    return ("-" if n < 0 else "") + format(abs(n), "x")
+
+
+def run_cases(binary, cases):
+    inp = "\n".join(" ".join(c) for c in cases) + "\n"
+    p = subprocess.run([binary], input=inp, capture_output=True, text=True, timeout=600)
+    return p.stdout.split("\n")[:len(cases)]
+
+
+# ------------------------------------------------------------------ oracle
+
+def tdiv(a, b):
+    q = abs(a) // abs(b)
+    if (a < 0) != (b < 0):
+        q = -q
+    return q, a - q * b
+
+
+def ediv(a, b):
+    r = a % abs(b)
+    return (a - r) // b, r
+
+
+def f64bits(n):
+    try:
+        f = float(n)
+    except OverflowError:
+        f = math.inf if n > 0 else -math.inf
+    return format(struct.unpack("<Q", struct.pack("<d", f))[0], "016x")
+
+
+def iroot(x, n):
+    if x < 2:
+        return x
+    lo, hi = 0, 1 << (x.bit_length() // n + 1)
+    while lo < hi:
+        m = (lo + hi + 1) // 2
+        if m ** n <= x:
+            lo = m
+        else:
+            hi = m - 1
+    return lo
+
+
+def opt(v):
+    return "None" if v is None else "Some(%s)" % v
+
+
+def expected(case):
+    op = case[0]
+    a = [x for x in case[1:]]
+
+    def I(k):
+        s = a[k]
+        return -int(s[1:], 16) if s.startswith("-") else int(s, 16)
+    try:
+        if op in ("uadd", "uadd_vv", "uadd_assign", "uadd_u32", "uadd_u64", "uadd_u128", "iadd", "iadd_vv", "iadd_vr", "iadd_rv", "iadd_assign", "iadd_i64"):
+            return hx(I(0) + I(1))
+        if op in ("usub", "usub_rv", "usub_assign", "usub_u64", "u64_sub_u"):
+            return hx(I(0) - I(1)) if I(0) >= I(1) else "PANIC"
+        if op in ("isub", "isub_vv", "isub_vr", "isub_rv", "isub_assign", "isub_i64", "i64_sub_i"):
+            return hx(I(0) - I(1))
+        if op == "uchecked_sub":
+            return opt(hx(I(0) - I(1)) if I(0) >= I(1) else None)
+        if op in ("umul", "umul_u64", "imul", "imul_i64"):
+            return hx(I(0) * I(1))
+        if op == "ineg":
+            return hx(-I(0))
+        if op in ("udivrem", "idivrem"):
+            if I(1) == 0:
+                return "PANIC"
+            q, r = tdiv(I(0), I(1))
+            return "%s %s" % (hx(q), hx(r))
+        if op in ("udiv", "idiv", "udiv_u64", "idiv_i64", "u64_div_u", "i64_div_i"):
+            return "PANIC" if I(1) == 0 else hx(tdiv(I(0), I(1))[0])
+        if op in ("urem", "irem", "urem_u64", "irem_i64", "u64_rem_u", "i64_rem_i"):
+            return "PANIC" if I(1) == 0 else hx(tdiv(I(0), I(1))[1])
+        if op in ("udiv_ceil", "idiv_ceil"):
+            return "PANIC" if I(1) == 0 else hx(-((-I(0)) // I(1)))
+        if op == "idiv_floor":
+            return "PANIC" if I(1) == 0 else hx(I(0) // I(1))
+        if op == "imod_floor":
+            return "PANIC" if I(1) == 0 else hx(I(0) % I(1))
+        if op == "idiv_mod_floor":
+            return "PANIC" if I(1) == 0 else "%s %s" % (hx(I(0) // I(1)), hx(I(0) % I(1)))
+        if op == "idiv_euclid":
+            return "PANIC" if I(1) == 0 else hx(ediv(I(0), I(1))[0])
+        if op == "irem_euclid":
+            return "PANIC" if I(1) == 0 else hx(ediv(I(0), I(1))[1])
+        if op == "idiv_rem_euclid":
+            return "PANIC" if I(1) == 0 else "%s %s" % tuple(hx(x) for x in ediv(I(0), I(1)))
+        if op in ("uchecked_div", "ichecked_div"):
+            return opt(None if I(1) == 0 else hx(tdiv(I(0), I(1))[0]))
+        if op in ("uchecked_div_euclid", "ichecked_div_euclid"):
+            return opt(None if I(1) == 0 else hx(ediv(I(0), I(1))[0]))
+        if op in ("uchecked_rem_euclid", "ichecked_rem_euclid"):
+            return opt(None if I(1) == 0 else hx(ediv(I(0), I(1))[1]))
+        if op in ("uchecked_div_rem_euclid", "ichecked_div_rem_euclid"):
+            return opt(None if I(1) == 0 else "%s %s" % tuple(hx(x) for x in ediv(I(0), I(1))))
+        if op in ("ucmp", "icmp"):
+            return "Less" if I(0) < I(1) else ("Equal" if I(0) == I(1) else "Greater")
+        if op == "ueq":
+            return "true" if I(0) == I(1) else "false"
+        if op == "umodpow":
+            return "PANIC" if I(2) == 0 else hx(pow(I(0), I(1), I(2)))
+        if op == "imodpow":
+            if I(2) == 0 or I(1) < 0:
+                return "PANIC"
+            return hx(pow(I(0), I(1), I(2)))  # python: sign of modulus (floor mod)
+        if op in ("umodinv", "imodinv"):
+            m = I(1)
+            if m == 0:
+                return "PANIC"
+            if math.gcd(I(0), m) != 1:
+                return "None"
+            x = pow(I(0), -1, abs(m)) if abs(m) > 1 else 0
+            if m < 0 and x != 0:
+                x = x + m
+            return opt(hx(x))
+        if op in ("upow", "ipow", "upow_big"):
+            return hx(I(0) ** I(1))
+        if op in ("ugcd", "igcd"):
+            return hx(math.gcd(I(0), I(1)))
+        if op in ("ulcm", "ilcm"):
+            g = math.gcd(I(0), I(1))
+            return hx(0 if g == 0 else abs(I(0) * I(1)) // g)
+        if op in ("usqrt", "isqrt"):
+            return "PANIC" if I(0) < 0 else hx(iroot(I(0), 2))
+        if op in ("ucbrt", "icbrt"):
+            return hx(iroot(I(0), 3)) if I(0) >= 0 else hx(-iroot(-I(0), 3))
+        if op in ("unth_root", "inth_root"):
+            n = I(1)
+            if n == 0 or (I(0) < 0 and n % 2 == 0):
+                return "PANIC"
+            return hx(iroot(I(0), n)) if I(0) >= 0 else hx(-iroot(-I(0), n))
+        if op in ("uis_multiple_of", "iis_multiple_of"):
+            return "true" if (I(0) == 0 if I(1) == 0 else I(0) % I(1) == 0) else "false"
+        if op in ("uand", "iand"):
+            return hx(I(0) & I(1))
+        if op in ("uor", "ior"):
+            return hx(I(0) | I(1))
+        if op in ("uxor", "ixor"):
+            return hx(I(0) ^ I(1))
+        if op == "inot":
+            return hx(~I(0))
+        if op in ("ushl", "ishl"):
+            return hx(I(0) << I(1))
+        if op in ("ushr", "ishr"):
+            return hx(I(0) >> I(1))
+        if op in ("ushl_i32",):
+            return "PANIC" if I(1) < 0 else hx(I(0) << I(1))
+        if op in ("ishr_i32",):
+            return "PANIC" if I(1) < 0 else hx(I(0) >> I(1))
+        if op == "ubits":
+            return str(I(0).bit_length())
+        if op in ("ubit", "ibit"):
+            return "true" if (I(0) >> I(1)) & 1 else "false"
+        if op in ("uset_bit", "iset_bit"):
+            return hx(I(0) | (1 << I(1))) if a[2] == "1" else hx(I(0) & ~(1 << I(1)))
+        if op == "utrailing_zeros":
+            n = I(0)
+            return "None" if n == 0 else "Some(%d)" % ((n & -n).bit_length() - 1)
+        if op == "utrailing_ones":
+            n = I(0)
+            k = 0
+            while (n >> k) & 1:
+                k += 1
+            return str(k)
+        if op == "ucount_ones":
+            return str(bin(I(0)).count("1"))
+        if op in ("uto_u64", "ito_u64"):
+            return "Some(%d)" % I(0) if 0 <= I(0) < B64 else "None"
+        if op == "uto_u128":
+            return "Some(%d)" % I(0) if 0 <= I(0) < (1 << 128) else "None"
+        if op == "uto_u32":
+            return "Some(%d)" % I(0) if 0 <= I(0) < (1 << 32) else "None"
+        if op in ("uto_i64", "ito_i64"):
+            return "Some(%d)" % I(0) if -(1 << 63) <= I(0) < (1 << 63) else "None"
+        if op == "ito_i128":
+            return "Some(%d)" % I(0) if -(1 << 127) <= I(0) < (1 << 127) else "None"
+        if op == "ito_i8":
+            return "Some(%d)" % I(0) if -128 <= I(0) < 128 else "None"
+        if op in ("uto_f64", "ito_f64"):
+            return f64bits(I(0))
+        if op in ("ufrom_u64", "ufrom_u128", "ifrom_i64", "ifrom_i128"):
+            return hx(I(0))
+        if op in ("uto_str", "ito_str"):
+            n, r = I(0), I(1)
+            if not 2 <= r <= 36:
+                return "PANIC"
+            digs = "0123456789abcdefghijklmnopqrstuvwxyz"
+            m = abs(n)
+            s = ""
+            while m:
+                s = digs[m % r] + s
+                m //= r
+            return ("-" if n < 0 else "") + (s or "0")
+        if op in ("uto_radix_le", "uto_radix_be"):
+            n, r = I(0), I(1)
+            if not 2 <= r <= 256:
+                return "PANIC"
+            d = []
+            while n:
+                d.append(n % r)
+                n //= r
+            d = d or [0]
+            if op.endswith("be"):
+                d.reverse()
+            return "[" + ", ".join(str(x) for x in d) + "]"
+        if op in ("uto_bytes_le", "uto_bytes_be"):
+            n = I(0)
+            d = list(n.to_bytes(max(1, (n.bit_length() + 7) // 8), "little"))
+            if op.endswith("be"):
+                d.reverse()
+            return "[" + ", ".join(str(x) for x in d) + "]"
+        if op in ("ito_signed_bytes_le", "ito_signed_bytes_be"):
+            n = I(0)
+            k = 1
+            while not -(1 << (8 * k - 1)) <= n < (1 << (8 * k - 1)):
+                k += 1
+            d = list(n.to_bytes(k, "little", signed=True))
+            if op.endswith("be"):
+                d.reverse()
+            return "[" + ", ".join(str(x) for x in d) + "]"
+        if op in ("ufrom_bytes_le", "ufrom_bytes_be"):
+            b = bytes(int(x, 16) for x in a)
+            return hx(int.from_bytes(b, "little" if op.endswith("le") else "big"))
+        if op in ("ifrom_signed_bytes_le", "ifrom_signed_bytes_be"):
+            b = bytes(int(x, 16) for x in a)
+            return hx(int.from_bytes(b, "little" if op.endswith("le") else "big", signed=True)) if b else "0"
+        if op == "unew":
+            return hx(sum(int(x, 16) << (32 * i) for i, x in enumerate(a)))
+        if op == "uassign_from_slice":
+            return hx(sum(int(x, 16) << (32 * i) for i, x in enumerate(a[1:])))
+        if op in ("uiter32", "uiter64"):
+            w = 32 if op == "uiter32" else 64
+            n = I(0)
+            d = []
+            while n:
+                d.append(n & ((1 << w) - 1))
+                n >>= w
+            out = ""
+            s = a[1]
+            i = 0
+
+            def fo(v):
+                return "None" if v is None else "Some(%x)" % v
+            while i < len(s):
+                c = s[i]
+                i += 1
+                if c == "n":
+                    out += fo(d.pop(0) if d else None) + ";"
+                elif c == "b":
+                    out += fo(d.pop() if d else None) + ";"
+                elif c == "l":
+                    out += "%d;" % len(d)
+                elif c == "L":
+                    out += fo(d[-1] if d else None) + ";"
+                    break
+                elif c == "c":
+                    out += "%d;" % len(d)
+                    break
+                elif c == "t":
+                    k = int(s[i])
+                    i += 1
+                    if k < len(d):
+                        v = d[k]
+                        d = d[k + 1:]
+                    else:
+                        v = None
+                        d = []
+                    out += fo(v) + ";"
+            return out
+        if op == "iabs":
+            return hx(abs(I(0)))
+        if op == "iabs_sub":
+            return hx(max(I(0) - I(1), 0))
+        if op == "isignum":
+            return hx((I(0) > 0) - (I(0) < 0))
+        if op == "ito_biguint":
+            return opt(hx(I(0)) if I(0) >= 0 else None)
+        if op == "ifrom_biguint":
+            return hx({"-": -1, "0": 0, "+": 1}[a[0]] * I(1))
+        if op in ("i8_rem_assign_u", "i64_rem_assign_u", "u64_rem_assign_u"):
+            return "PANIC" if I(1) == 0 else str(tdiv(I(0), I(1))[1])
+        if op in ("unext_multiple_of", "inext_multiple_of"):
+            if I(1) == 0:
+                return "PANIC"
+            m = I(0) % I(1)
+            return hx(I(0) if m == 0 else I(0) + (I(1) - m))
+        if op in ("uprev_multiple_of", "iprev_multiple_of"):
+            if I(1) == 0:
+                return "PANIC"
+            return hx(I(0) - I(0) % I(1))
+        if op == "iextended_gcd":
+            return None  # checked by identity in caller
+    except Exception:
+        return None
+    return None
+
+
+# ------------------------------------------------------------------ input banks
+
+EDGE = [0, 1, 2, B64 - 1, B64 - 2, 1 << 63, (1 << 63) - 1, (1 << 32) - 1, 1 << 32, 0x8000000000000001, 0xAAAAAAAAAAAAAAAA, 0x5555555555555555]
+
+
+def big(rng, nd, pattern=None):
+    """nd-digit number with edge-biased digits; top digit non-zero when nd > 0"""
+    if nd == 0:
+        return 0
+    ds = []
+    for i in range(nd):
+        p = pattern if pattern is not None else rng.choice(["edge", "edge", "rand", "ones", "zero"])
+        if p == "edge":
+            ds.append(rng.choice(EDGE))
+        elif p == "rand":
+            ds.append(rng.getrandbits(64))
+        elif p == "ones":
+            ds.append(B64 - 1)
+        else:
+            ds.append(0)
+    if ds[-1] == 0:
+        ds[-1] = rng.choice([1, B64 - 1, 1 << 63])
+    return sum(d << (64 * i) for i, d in enumerate(ds))
+
+
+def lens(tier):
+    base = [0, 1, 2, 3, 4, 5, 6, 7, 9, 10, 11, 14, 15, 16, 20, 21]
+    if tier == "thorough":
+        base += [24, 25, 26, 31, 32, 33, 34, 40, 63, 64, 65, 66, 70, 128, 129, 255, 256, 257, 258, 300, 513, 520]
+    else:
+        base += [31, 32, 33, 34, 64, 65, 256, 257, 258]
+    return base
+
+
+def bank(pid, tier, seed):
+    rng = random.Random(seed * 7919 + hash(pid) % 1000)
+    cases = []
+    L = lens(tier)
+    reps = 3 if tier == "quick" else 8
+
+    def pairs(maxlen=None):
+        for la in L:
+            for lb in L:
+                if maxlen and (la > maxlen or lb > maxlen):
+                    continue
+                if tier == "quick" and la > 34 and lb > 34 and la != lb and rng.random() < 0.5:
+                    continue
+                for _ in range(reps if la < 40 and lb < 40 else 1):
+                    yield big(rng, la), big(rng, lb)
+        for la in L[:12]:
+            yield big(rng, la, "ones"), 1
+            yield big(rng, la, "ones"), big(rng, la, "ones")
+            yield (1 << (64 * la)), 1
+
+    def signed(p):
+        for a, b in p:
+            for sa in (1, -1):
+                for sb in (1, -1):
+                    yield sa * a, sb * b
+
+    if pid in ("C01", "C15"):
+        for a, b in pairs(70 if tier == "quick" else None):
+            for op in ("uadd", "uadd_assign", "uadd_vv"):
+                cases.append((op, hx(a), hx(b)))
+            for op in ("usub", "usub_rv", "usub_assign", "uchecked_sub"):
+                cases.append((op, hx(a), hx(b)))
+                cases.append((op, hx(b), hx(a)))
+                cases.append((op, hx(a + b), hx(b)))
+                cases.append((op, hx(a + b), hx(a)))
+            if b < B64:
+                cases.append(("uadd_u64", hx(a), hx(b)))
+                cases.append(("usub_u64", hx(a), hx(b)))
+                cases.append(("u64_sub_u", hx(b), hx(a)))
+        for a, b in signed(pairs(34)):
+            for op in ("iadd", "iadd_vv", "iadd_vr", "iadd_rv", "iadd_assign", "isub", "isub_vv", "isub_vr", "isub_rv", "isub_assign"):
+                cases.append((op, hx(a), hx(b)))
+    elif pid == "C02":
+        for a, b in pairs():
+            cases.append(("umul", hx(a), hx(b)))
+        for a, b in signed(pairs(10)):
+            cases.append(("imul", hx(a), hx(b)))
+        for a, _ in pairs(20):
+            for s in EDGE:
+                cases.append(("umul_u64", hx(a), hx(s)))
+    elif pid in ("C03", "C14"):
+        for a, b in pairs(66):
+            for x, y in ((a, b), (a * b + (b // 2 if b else 0), b), (a * b, b), (a, a), (a + 1, a), (a, a + 1)):
+                for op in ("udivrem", "udiv", "urem", "udiv_ceil", "uchecked_div", "uchecked_div_rem_euclid", "uchecked_rem_euclid"):
+                    cases.append((op, hx(x), hx(y)))
+        for a, b in signed(pairs(6)):
+            for op in ("idivrem", "idiv", "irem", "idiv_floor", "imod_floor", "idiv_mod_floor", "idiv_ceil", "idiv_euclid", "irem_euclid",
+                       "idiv_rem_euclid", "ichecked_div", "ichecked_div_euclid", "ichecked_rem_euclid", "ichecked_div_rem_euclid"):
+                cases.append((op, hx(a), hx(b)))
+        for a, _ in pairs(8):
+            for s in EDGE:
+                for op in ("udiv_u64", "urem_u64", "u64_div_u", "u64_rem_u"):
+                    cases.append((op, hx(a) if not op.startswith("u64") else hx(s), hx(s) if not op.startswith("u64") else hx(a)))
+        if pid == "C14":
+            for a, b in pairs(5):
+                cases.append(("usub", hx(a), hx(b)))
+                cases.append(("uchecked_sub", hx(a), hx(b)))
+                cases.append(("uto_radix_le", hx(a), hx(rng.choice([0, 1, 2, 10, 256, 257, 512, 1000]))))
+                cases.append(("uto_str", hx(a), hx(rng.choice([0, 1, 2, 10, 36, 37]))))
+                cases.append(("umodpow", hx(a), hx(b % 1000), hx(rng.choice([0, 1, 2, b]))))
+                cases.append(("unth_root", hx(a), hx(rng.choice([0, 1, 2, 3]))))
+                cases.append(("ushl_i32", hx(a), hx(rng.choice([-1, 0, 5]))))
+    elif pid == "C04":
+        for a, b in signed(pairs(6)):
+            cases.append(("icmp", hx(a), hx(b)))
+            cases.append(("icmp", hx(a), hx(a)))
+        for a, b in pairs(10):
+            cases.append(("ucmp", hx(a), hx(b)))
+            cases.append(("ueq", hx(a), hx(a)))
+            cases.append(("usub", hx(a + b), hx(a)))
+            cases.append(("uxor", hx(a), hx(a)))
+        for n in range(0, 6):
+            for z in range(0, 4):
+                d = [format(rng.choice(EDGE) & 0xffffffff, "x") for _ in range(n)] + ["0"] * z
+                cases.append(("unew",) + tuple(d))
+                cases.append(("uassign_from_slice", hx(big(rng, 3))) + tuple(d))
+        for s in ("-", "0", "+"):
+            for a in (0, 1, B64, big(rng, 3)):
+                cases.append(("ifrom_biguint", s, hx(a)))
+    elif pid == "C05":
+        for a, b in pairs(5):
+            for m in (1, 2, 3, 4, 97, B64 - 1, B64, B64 + 1, big(rng, 2), big(rng, 3) | 1, big(rng, 3) & ~1 or 2):
+                e = rng.choice([0, 1, 2, 3, 65537, b % (1 << 70)])
+                cases.append(("umodpow", hx(a), hx(e), hx(m)))
+                cases.append(("umodinv", hx(a), hx(m)))
+                for sa in (1, -1):
+                    for sm in (1, -1):
+                        cases.append(("imodpow", hx(sa * a), hx(e), hx(sm * m)))
+                        cases.append(("imodinv", hx(sa * a), hx(sm * m)))
+    elif pid == "C06":
+        for a, _ in pairs(8):
+            for r in (2, 3, 7, 8, 10, 16, 32, 36):
+                cases.append(("uto_str", hx(a), hx(r)))
+                cases.append(("ito_str", hx(-a), hx(r)))
+            for r in (2, 3, 10, 16, 100, 255, 256):
+                cases.append(("uto_radix_le", hx(a), hx(r)))
+                cases.append(("uto_radix_be", hx(a), hx(r)))
+    elif pid == "C07":
+        for a, b in signed(pairs(5)):
+            for op in ("iand", "ior", "ixor"):
+                cases.append((op, hx(a), hx(b)))
+            cases.append(("inot", hx(a)))
+            for k in (0, 1, 63, 64, 65, 127, 128, 200):
+                cases.append(("ishl", hx(a), hx(k)))
+                cases.append(("ishr", hx(a), hx(k)))
+                cases.append(("ibit", hx(a), hx(k)))
+                cases.append(("iset_bit", hx(a), hx(k), "1"))
+                cases.append(("iset_bit", hx(a), hx(k), "0"))
+        for a, b in pairs(6):
+            for op in ("uand", "uor", "uxor"):
+                cases.append((op, hx(a), hx(b)))
+            for k in (0, 1, 63, 64, 65, 130):
+                cases.append(("ushl", hx(a), hx(k)))
+                cases.append(("ushr", hx(a), hx(k)))
+                cases.append(("ubit", hx(a), hx(k)))
+                cases.append(("uset_bit", hx(a), hx(k), "0"))
+                cases.append(("uset_bit", hx(a), hx(k), "1"))
+            for op in ("ubits", "utrailing_zeros", "utrailing_ones", "ucount_ones"):
+                cases.append((op, hx(a)))
+    elif pid == "C08":
+        for nd in range(0, 20):
+            for _ in range(reps * 4):
+                a = big(rng, nd)
+                for op in ("uto_u64", "uto_u128", "uto_i64", "uto_u32", "uto_f64"):
+                    cases.append((op, hx(a)))
+                for op in ("ito_i64", "ito_i128", "ito_u64", "ito_i8", "ito_f64"):
+                    cases.append((op, hx(a)))
+                    cases.append((op, hx(-a)))
+        for hi in range(64, 200, 7):
+            for mid in range(0, hi - 53, 5):
+                for lo in (None, 0, 1, 63, 64, 65):
+                    n = (1 << hi) + (1 << mid) + ((1 << lo) if lo is not None and lo < mid else 0)
+                    cases.append(("uto_f64", hx(n)))
+                    if mid == hi - 53 or mid == hi - 54:
+                        cases.append(("uto_f64", hx(n + (1 << (hi - 52)))))
+        for hi in range(64, 270):
+            rb = hi - 53
+            for lo in (0, 1, 31, 32, 63, 64, 65, 127, 128, rb - 1, rb - 64, rb - 65):
+                if 0 <= lo < rb:
+                    cases.append(("uto_f64", hx((1 << hi) + (1 << rb) + (1 << lo))))
+                    cases.append(("ito_f64", hx(-((1 << hi) + (1 << rb) + (1 << lo)))))
+            cases.append(("uto_f64", hx((1 << hi) + (1 << rb))))
+            cases.append(("uto_f64", hx((1 << hi) + (3 << rb))))
+        for e in (-(1 << 63), (1 << 63) - 1, -(1 << 127), (1 << 127) - 1, 1 << 63, 1 << 127, -(1 << 63) - 1, -(1 << 127) - 1, -128, 127, -129, 128):
+            for op in ("ito_i64", "ito_i128", "ito_i8", "ito_u64"):
+                cases.append((op, hx(e)))
+    elif pid == "C09":
+        for a, _ in pairs(5):
+            for op in ("uto_bytes_le", "uto_bytes_be", "ito_signed_bytes_le", "ito_signed_bytes_be"):
+                cases.append((op, hx(a)))
+                if op.startswith("i"):
+                    cases.append((op, hx(-a)))
+            for script in ("nnnnnl", "bbbl", "nbnbnbl", "nL", "nnL", "nnnL", "bL", "nc", "lnlblL", "t0t1l", "t2L", "nbc", "bnL", "nnnnc"):
+                cases.append(("uiter32", hx(a), script))
+                cases.append(("uiter64", hx(a), script))
+        for k in range(1, 10):
+            for v in (-(1 << (8 * k - 1)), (1 << (8 * k - 1)) - 1, (1 << (8 * k - 1)), -(1 << (8 * k - 1)) - 1, -1, 0):
+                cases.append(("ito_signed_bytes_le", hx(v)))
+                cases.append(("ito_signed_bytes_be", hx(v)))
+    elif pid == "C10":
+        for a, _ in pairs(4):
+            for s in (0, 1, 2, 127, 128, 255, (1 << 63), B64 - 1):
+                cases.append(("i8_rem_assign_u", hx(-128), hx(s)))
+                cases.append(("i64_rem_assign_u", hx(-(1 << 63)), hx(s)))
+                cases.append(("i64_rem_assign_u", hx(rng.randrange(-(1 << 63), 1 << 63)), hx(a)))
+                cases.append(("u64_rem_assign_u", hx(rng.getrandbits(64)), hx(a)))
+            for s in EDGE:
+                cases.append(("iadd_i64", hx(-a), hx(s - (1 << 63))))
+                cases.append(("isub_i64", hx(a), hx(s - (1 << 63))))
+                cases.append(("i64_sub_i", hx(s - (1 << 63)), hx(a)))
+                cases.append(("idiv_i64", hx(a), hx(s - (1 << 63))))
+                cases.append(("irem_i64", hx(-a), hx(s - (1 << 63))))
+                cases.append(("i64_div_i", hx(s - (1 << 63)), hx(a)))
+                cases.append(("i64_rem_i", hx(s - (1 << 63)), hx(-a)))
+                cases.append(("imul_i64", hx(-a), hx(s - (1 << 63))))
+    elif pid == "C11":
+        for nd in range(0, 12):
+            for _ in range(reps):
+                a = big(rng, nd)
+                cases.append(("usqrt", hx(a)))
+                cases.append(("ucbrt", hx(a)))
+                cases.append(("usqrt", hx(a * a)))
+                cases.append(("usqrt", hx(a * a - 1 if a else 0)))
+                cases.append(("ucbrt", hx(a ** 3)))
+                cases.append(("ucbrt", hx(a ** 3 - 1 if a else 0)))
+                for n in (1, 2, 3, 4, 5, 7, 64, 65, 1000):
+                    cases.append(("unth_root", hx(a), hx(n)))
+                    cases.append(("inth_root", hx(-a), hx(n)))
+    elif pid == "C12":
+        for a in [0, 1, 2, 3, B64 - 1, B64, big(rng, 2), big(rng, 3)]:
+            for e in (0, 1, 2, 3, 4, 5, 8, 15, 16, 17, 31, 64, 100):
+                cases.append(("upow", hx(a), hx(e)))
+                cases.append(("ipow", hx(-a), hx(e)))
+                cases.append(("upow_big", hx(a), hx(e)))
+    elif pid == "C13":
+        for a, b in signed(pairs(5)):
+            for op in ("igcd", "ilcm", "iis_multiple_of"):
+                cases.append((op, hx(a), hx(b)))
+        for a, b in pairs(6):
+            for op in ("ugcd", "ulcm", "uis_multiple_of", "unext_multiple_of", "uprev_multiple_of"):
+                cases.append((op, hx(a), hx(b)))
+                cases.append((op, hx(a * b), hx(b)))
+    elif pid == "C19":
+        for a, b in signed(pairs(4)):
+            for op in ("iabs_sub",):
+                cases.append((op, hx(a), hx(b)))
+            for op in ("ineg", "iabs", "isignum", "ito_biguint"):
+                cases.append((op, hx(a)))
+        for s in ("-", "0", "+"):
+            for a in (0, 1, B64, big(rng, 3)):
+                cases.append(("ifrom_biguint", s, hx(a)))
+    # dedupe
+    seen = set()
     out = []
-    for name, u, d in viol:
-        path = os.path.join(ROOT, "replay", "out", "%s-%s.json" % (pid, u))
-        with open(path, "w") as f:
-            json.dump({"property": pid, "obligation": name, "verifier_output": d.get("rendered") or d, "failing_input": None}, f, indent=1, default=str)
-        out.append((path, False))
+    for c in cases:
+        if c not in seen:
+            seen.add(c)
+            out.append(c)
     return out
+
+
+def search(pid, repo, tier, seed, budget_s=120):
+    binary, err = build_driver(repo)
+    if not binary:
+        return None, "replay driver did not build: " + err[-500:], 0
+    cases = bank(pid, tier, seed)
+    t0 = time.time()
+    n = 0
+    CH = 4000
+    for i in range(0, len(cases), CH):
+        chunk = cases[i:i + CH]
+        exp = [expected(c) for c in chunk]
+        try:
+            got = run_cases(binary, chunk)
+        except Exception as e:
+            return None, "driver run failed: %r" % e, n
+        for c, e, g in zip(chunk, exp, got):
+            n += 1
+            if e is None:
+                continue
+            if e != g.strip():
+                return {"op": c[0], "args": list(c[1:]), "expected": e, "observed": g.strip()}, "", n
+        if time.time() - t0 > budget_s:
+            break
+    return None, "", n
+
+
+def find_and_write(pid, viol, repo, tier, seed):
+    os.makedirs(os.path.join(ROOT, "replay", "out"), exist_ok=True)
+    found, note, n = search(pid, repo, tier, seed)
+    out = []
+    for k, (name, u, d) in enumerate(viol):
+        path = os.path.join(ROOT, "replay", "out", "%s-%s-%d.json" % (pid, str(u).replace(":", "_"), k))
+        rec = {"property": pid, "obligation": name,
+               "verifier_output": (d.get("rendered") if isinstance(d, dict) else None) or (d.get("detail") if isinstance(d, dict) else None) or str(d),
+               "solver_model": d.get("model") if isinstance(d, dict) else None,
+               "failing_input": found, "cases_tried": n, "note": note or ("" if found else "no-failing-input-found within the replay bank")}
+        if found:
+            # confirm once more against the real code
+            binary, _ = build_driver(repo)
+            again = run_cases(binary, [tuple([found["op"]] + found["args"])])[0].strip()
+            rec["confirmed_observed"] = again
+            if again == found["expected"]:
+                rec["failing_input"] = None
+                found = None
+        with open(path, "w") as f:
+            json.dump(rec, f, indent=1, default=str)
+        out.append((path, bool(rec["failing_input"])))
+    return out
+
+
 def replay_file(path, repo):
-    print(open(path).read()); return 0
+    with open(path) as f:
+        rec = json.load(f)
+    print("obligation:", rec.get("obligation"))
+    fi = rec.get("failing_input")
+    if not fi:
+        print("no concrete input recorded (no-failing-input-found); verifier output follows")
+        print(rec.get("verifier_output"))
+        return 0
+    binary, err = build_driver(repo)
+    if not binary:
+        print("driver build failed:", err)
+        return 2
+    got = run_cases(binary, [tuple([fi["op"]] + fi["args"])])[0].strip()
+    print("case:", fi["op"], " ".join(fi["args"]))
+    print("expected:", fi["expected"])
+    print("observed:", got)
+    return 1 if got != fi["expected"] else 0
+
+
+if __name__ == "__main__":
+    import sys
+    pid = sys.argv[1]
+    repo = os.environ.get("VERIF_REPO", "/repo")
+    tier = sys.argv[2] if len(sys.argv) > 2 else "quick"
+    t0 = time.time()
+    r = search(pid, repo, tier, int(os.environ.get("VERIF_SEED", "0")), budget_s=600)
+    print(r, "%.1fs" % (time.time() - t0))
